@@ -637,6 +637,71 @@ theorem Inv_runSync (h : List (Owner × Snapshot)) : ∀ (s : TK) (L : Owner →
     · simp only [ho, if_false]
       exact Inv_sync hI p.1 ho p.2
 
+/-! ## failing batch syscalls -/
+
+theorem Inv_of_lookup_eq {t : Tracker} {K K' : Kernel} {L : Owner → Option Snapshot} (hI : Inv t K L)
+    (h : ∀ key, alLookup key K' = alLookup key K) : Inv t K' L :=
+  ⟨hI.owners, hI.eff, hI.noEmpty, hI.st, hI.none, fun key => by rw [h key]; exact hI.kern key⟩
+
+/-- one call with any behaviour of the update batch (the delete batch succeeds): the invariant is kept for
+the owner map that changes exactly when the call completed. -/
+theorem Inv_syncO {s : TK} {L : Owner → Option Snapshot} (hI : Inv s.t s.K L) (o : Owner) (snap : Snapshot)
+    (oc : Outcome) (hoc : oc ≠ .delFail) :
+    Inv (s.syncO o snap oc).1.t (s.syncO o snap oc).1.K
+      (if (s.syncO o snap oc).2 = .done then setOwner L o snap else L) := by
+  unfold TK.syncO syncOwner
+  by_cases ho : o = ""
+  · simp only [ho, if_true]; exact hI
+  · simp only [ho, if_false]
+    by_cases h1 : oc = .updFail ∧ (emitFor s.t o snap (affected s.t o snap)).ups ≠ []
+    · rw [if_pos h1]
+      simp only [reduceCtorEq, if_false]
+      exact hI
+    · rw [if_neg h1]
+      have h2 : ¬ (oc = .delFail ∧ (emitFor s.t o snap (affected s.t o snap)).dels ≠ []) := fun h => hoc h.1
+      rw [if_neg h2]
+      simp only [if_true]
+      exact Inv_sync hI o ho snap
+
+theorem Inv_runSyncO (h : List (Owner × Snapshot × Outcome)) : ∀ (s : TK) (L : Owner → Option Snapshot),
+    Inv s.t s.K L → (∀ p ∈ h, p.2.2 ≠ Outcome.delFail) →
+    Inv (runSyncO s L h).1.t (runSyncO s L h).1.K (runSyncO s L h).2 := by
+  induction h with
+  | nil => intro s L hI _; exact hI
+  | cons p h ih =>
+    intro s L hI hall
+    unfold runSyncO
+    simp only [List.foldl_cons]
+    apply ih
+    · exact Inv_syncO hI p.1 p.2.1 p.2.2 (hall p (by simp))
+    · intro q hq; exact hall q (List.mem_cons_of_mem _ hq)
+
+/-- the update batch alone, applied to the table. -/
+theorem lookup_ups_only (t : Tracker) (K : Kernel) (o : Owner) (s : Snapshot) (aff : List Ip) (key : Ip) :
+    alLookup key (applyEmit K ⟨(emitFor t o s aff).ups, []⟩) =
+      if key ∈ aff then (match classify t key o s with
+        | .upd v => some v
+        | _ => alLookup key K) else alLookup key K := by
+  unfold applyEmit emitFor
+  simp only [List.foldl_nil, lookup_ups]
+
+/-- retrying the same call right after a failed delete batch repairs everything. -/
+theorem Inv_retry_after_delFail {t : Tracker} {K : Kernel} {L : Owner → Option Snapshot} (hI : Inv t K L)
+    (o : Owner) (ho : o ≠ "") (s : Snapshot) :
+    Inv (applySnapshot t o s)
+      (applyEmit (applyEmit K ⟨(emitFor t o s (affected t o s)).ups, []⟩) (emitFor t o s (affected t o s)))
+      (setOwner L o s) := by
+  apply Inv_of_lookup_eq (Inv_sync hI o ho s)
+  intro key
+  rw [lookup_applyEmit, lookup_applyEmit]
+  by_cases hm : key ∈ affected t o s
+  · simp only [hm, if_true, kAfter]
+    cases hc : classify t key o s with
+    | upd v => rfl
+    | del => rfl
+    | keep => simp only [lookup_ups_only, hm, if_true, hc]
+  · simp only [hm, if_false, lookup_ups_only]
+
 /-! ## the cache layer -/
 
 /-- the owner map the cache contents denote: every cached entry under its key, unless it lists no address
@@ -773,11 +838,11 @@ theorem CInv_update_fields {σ : CState} (h : CInv σ) (key : String) (e e' : En
       subst hx
       rw [hs, h3]
 
-theorem CInv_trigger {σ : CState} (h : CInv σ) (key : String) (e : Entry) (hl : alLookup key σ.cache = some e) :
-    CInv (σ.trigger key e) := by
-  unfold CState.trigger
-  by_cases hn : needsUpdate e σ.now = true
-  · simp only [hn, if_true]
+theorem CInv_queueRefresh {σ : CState} (h : CInv σ) (key : String) : CInv (σ.queueRefresh key) := by
+  unfold CState.queueRefresh
+  cases hl : alLookup key σ.cache with
+  | none => exact h
+  | some e =>
     apply CInv_update_fields h key e { e with lastSync := σ.now } hl rfl rfl
     intro t ht
     rcases List.mem_append.mp ht with h1 | h1
@@ -785,8 +850,35 @@ theorem CInv_trigger {σ : CState} (h : CInv σ) (key : String) (e : Entry) (hl 
     · simp only [List.mem_singleton] at h1
       subst h1
       exact Or.inr ⟨rfl, rfl, rfl⟩
-  · simp only [hn, Bool.false_eq_true, if_false]
-    exact h
+
+/-- storing a fresh object under `key` and syncing its snapshot (insert, replace, restore). -/
+theorem CInv_store {σ : CState} (h : CInv σ) (key : String) (hk : key ≠ "") (e : Entry) :
+    CInv (σ.store key e) := by
+  unfold CState.store
+  have hne : ¬ ("" = key) := fun e => hk e.symm
+  refine ⟨?_, ?_, NoDupKeys_insert _ _ h.nodup, ?_, ?_, ?_⟩
+  · have := Inv_TKsync h.inv key e.snap
+    simp only [hk, if_false] at this
+    simp only [liveOfCache_insert _ _ _ hk]
+    exact this
+  · simp only [alLookup_insert, hne, if_false]; exact h.noEmptyKey
+  · intro k x hx
+    simp only [alLookup_insert] at hx
+    by_cases hkk : k = key
+    · simp only [hkk, if_true, Option.some.injEq] at hx
+      subst hx; exact Nat.lt_succ_self _
+    · simp only [hkk, if_false] at hx
+      exact Nat.lt_succ_of_lt (h.idsC k x hx)
+  · intro t ht; exact Nat.lt_succ_of_lt (h.idsP t ht)
+  · intro t ht x hx hxid
+    simp only [alLookup_insert] at hx
+    by_cases hkk : t.key = key
+    · simp only [hkk, if_true, Option.some.injEq] at hx
+      subst hx
+      have := h.idsP t ht
+      simp only at hxid
+      omega
+    · simp only [hkk, if_false] at hx; exact h.task t ht x hx hxid
 
 theorem CInv_pop {σ : CState} (h : CInv σ) (t : Task) (rest : List Task) (hp : σ.pending = t :: rest) :
     CInv { σ with pending := rest } :=
@@ -822,37 +914,41 @@ theorem CInv_applyTask {σ : CState} (h : CInv σ) (t : Task)
     · rw [if_neg hid]
       exact h
 
+theorem CInv_reset {σ : CState} (h : CInv σ) :
+    CInv { σ with cache := [], tk := ⟨Tracker.empty, [], σ.tk.log⟩ } := by
+  refine ⟨?_, rfl, NoDupKeys_nil, ?_, h.idsP, ?_⟩
+  · have : liveOfCache ([] : List (String × Entry)) = fun _ => none := by
+      funext x; simp [liveOfCache, alLookup]
+    simp only [this]; exact Inv_empty
+  · intro k e hk; simp [alLookup] at hk
+  · intro t _ e hl; simp [alLookup] at hl
+
+theorem CInv_restore_fold (old : List (String × Entry)) (order : List (String × Bitmap)) :
+    ∀ {σ : CState}, CInv σ → CInv (order.foldl (fun σ p =>
+      match alLookup p.1 old with
+      | some e => if p.1 = "" then σ else σ.store p.1 { e with bitmap := p.2, lastSync := σ.now }
+      | none => σ) σ) := by
+  induction order with
+  | nil => intro σ h; exact h
+  | cons p order ih =>
+    intro σ h
+    simp only [List.foldl_cons]
+    apply ih
+    cases alLookup p.1 old with
+    | none => exact h
+    | some e =>
+      simp only
+      by_cases hk : p.1 = ""
+      · simp only [hk, if_true]; exact h
+      · simp only [hk, if_false]; exact CInv_store h p.1 hk _
+
 theorem CInv_step {σ : CState} (h : CInv σ) (op : COp) : CInv (cstep σ op) := by
   cases op with
-  | put key ttl fixedTtl bitmap ans =>
+  | put key fqdn qtype ttl fixedTtl bitmap ans =>
     simp only [cstep]
-    by_cases hk : key = ""
+    by_cases hk : effKey key fqdn qtype = ""
     · simp only [hk, if_true]; exact h
-    · simp only [hk, if_false]
-      have hne : ¬ ("" = key) := fun e => hk e.symm
-      refine ⟨?_, ?_, NoDupKeys_insert _ _ h.nodup, ?_, ?_, ?_⟩
-      · have := Inv_TKsync h.inv key ⟨bitmap, ansIps ans⟩
-        simp only [hk, if_false] at this
-        simp only [liveOfCache_insert _ _ _ hk]
-        exact this
-      · simp only [alLookup_insert, hne, if_false]; exact h.noEmptyKey
-      · intro k x hx
-        simp only [alLookup_insert] at hx
-        by_cases hkk : k = key
-        · simp only [hkk, if_true, Option.some.injEq] at hx
-          subst hx; exact Nat.lt_succ_self _
-        · simp only [hkk, if_false] at hx
-          exact Nat.lt_succ_of_lt (h.idsC k x hx)
-      · intro t ht; exact Nat.lt_succ_of_lt (h.idsP t ht)
-      · intro t ht x hx hxid
-        simp only [alLookup_insert] at hx
-        by_cases hkk : t.key = key
-        · simp only [hkk, if_true, Option.some.injEq] at hx
-          subst hx
-          have := h.idsP t ht
-          simp only at hxid
-          omega
-        · simp only [hkk, if_false] at hx; exact h.task t ht x hx hxid
+    · simp only [hk, if_false]; exact CInv_store h _ hk _
   | del key => simp only [cstep]; exact CInv_evict h key
   | fam base order =>
     simp only [cstep]
@@ -862,15 +958,14 @@ theorem CInv_step {σ : CState} (h : CInv σ) (op : COp) : CInv (cstep σ op) :=
       have := CInv_foldl_evict (fun k => decide (baseKey k = base)) order h
       simp only [decide_eq_true_eq] at this
       exact this
-  | look key ignoreFixed =>
+  | look key evicted queued =>
     simp only [cstep]
-    cases hl : alLookup key σ.cache with
-    | none => exact h
-    | some e =>
-      simp only
-      by_cases hd : (if ignoreFixed = true then e.origDeadline else e.deadline) ≤ σ.now
-      · simp only [hd, if_true]; exact CInv_evict h key
-      · simp only [hd, if_false]; exact CInv_trigger h key e hl
+    cases evicted with
+    | true => simp only [if_true]; exact CInv_evict h key
+    | false =>
+      cases queued with
+      | true => simp only [Bool.false_eq_true, if_false, if_true]; exact CInv_queueRefresh h key
+      | false => simp only [Bool.false_eq_true, if_false]; exact h
   | jan order =>
     simp only [cstep]
     have := CInv_foldl_evict (fun _ => true) order h
@@ -885,7 +980,7 @@ theorem CInv_step {σ : CState} (h : CInv σ) (op : COp) : CInv (cstep σ op) :=
     | none => exact h
     | some e =>
       exact CInv_update_fields h key e { e with lastAccess := σ.now } hl rfl rfl σ.pending (fun x hx => Or.inl hx)
-  | hot key packed =>
+  | hot key evicted queued =>
     simp only [cstep]
     cases hl : alLookup key σ.cache with
     | none => exact h
@@ -893,17 +988,15 @@ theorem CInv_step {σ : CState} (h : CInv σ) (op : COp) : CInv (cstep σ op) :=
       simp only
       have h1 : CInv { σ with cache := alInsert key { e with lastAccess := σ.now } σ.cache } :=
         CInv_update_fields h key e { e with lastAccess := σ.now } hl rfl rfl σ.pending (fun x hx => Or.inl hx)
-      have hl1 : alLookup key ({ σ with cache := alInsert key { e with lastAccess := σ.now } σ.cache } : CState).cache
-          = some { e with lastAccess := σ.now } := by simp [alLookup_insert]
-      by_cases hd : σ.now < e.deadline
-      · simp only [hd, if_true]
-        by_cases hp : packed = true
-        · simp only [hp, if_true]; exact CInv_trigger h1 key _ hl1
-        · simp only [hp, Bool.false_eq_true, if_false]; exact h1
-      · simp only [hd, if_false]
-        split
-        · exact h1
-        · exact CInv_evict h1 key
+      cases evicted with
+      | true => simp only [if_true]; exact CInv_evict h1 key
+      | false =>
+        cases queued with
+        | true => simp only [Bool.false_eq_true, if_false, if_true]; exact CInv_queueRefresh h1 key
+        | false => simp only [Bool.false_eq_true, if_false]; exact h1
+  | reload assign =>
+    simp only [cstep]
+    exact CInv_restore_fold σ.cache _ (CInv_reset h)
   | work =>
     simp only [cstep]
     cases hp : σ.pending with
